@@ -853,7 +853,14 @@ Print Assumptions C10_ws_cycle_guard.
    variable, parameter or own / inherited field whose declared type is native, an indexed class, `refto`
    one, or `listof`): the answer is the all-declarations look-up on the chain of the operand's class,
    to which C10_ws_entity_chain_refines / C10_ws_member apply.  PARTIAL: that typed_entity is
-   Scoping.static_class of the one-element prefix is tied to the code by the differential run only. *)
+   Scoping.static_class of the one-element prefix (head_etype) is tied to the code by the differential run only.
+   What a proof needs beyond WsTreeProofs: (1) the declaration found at position i of a tree table is the
+   member / variable with tag i of the entity (member_by_tag / var_by_tag against decl_node's search by
+   range, name and kind), and its decl_tyref is what declared_entity reads; (2) Scoping's tables DURING the
+   annotation of method m (scope_chain_during: members_upto) against the final tables plus typed_entity's
+   side condition `every own declaration of the name ends before the operand` -- this relates source
+   positions to declaration order and needs the sibling-order facts of C08 (RangeTop) as a hypothesis;
+   (3) a class-kind symbol other than `self` in a regular root table is the header symbol (a_name = cls). *)
 Theorem C10_ws_typed_member_case :
   forall ws a stem t p i enc pi q up full lft,
     distinct_stems ws = true -> nth_error ws a = Some (stem, t) -> flat_methods t = true ->
@@ -885,3 +892,70 @@ Qed.
 
 Print Assumptions C10_ws_typed_member_case.
 Print Assumptions C10_ws_typed_nonvacuous.
+
+(* ---- parent cycles: the cut chain, characterised (Proofs/WsTreeCut.v) ----
+   cut_ws ws c: the workspace in which document c's class header has lost its parent clause (the
+   attribute K_parent of its top-level class node; nothing else changes). *)
+From GoldV Require Import WsTreeTerm WsTreeCut.
+
+(* when the walk from the requested document a comes back (the cycle guard refuses a link), the chain
+   it returns ends with the document c that closes the cycle, and it IS the chain of a in cut_ws ws c:
+   there the walk does not come back and visits the same documents; every table along it, hence every
+   look-up along the chain (generate_loc_link_all) and every link target, is the same *)
+Theorem C10_ws_cycle_chain :
+  forall ws a path, lineage_t ws a = Ans (true, path) ->
+    exists c pre, path = pre ++ [c] /\
+      lineage_t (cut_ws ws c) a = Ans (false, path) /\
+      own_chain (cut_ws ws c) a = own_chain ws a /\
+      (forall b, tables_along (cut_ws ws c) b path = tables_along ws b path) /\
+      (forall ch oid, wdef_all (cut_ws ws c) ch oid = wdef_all ws ch oid) /\
+      (forall h, target_of (cut_ws ws c) h = target_of ws h).
+Proof. exact ws_cycle_chain. Qed.
+
+(* a plain identifier that the chain itself declares gets the same link in both workspaces *)
+Theorem C10_ws_cycle_plain_in_chain :
+  forall ws c a ch id h, lookup ch id = Some h ->
+    wdef_single (cut_ws ws c) a ch (Some id) = wdef_single ws a ch (Some id).
+Proof. exact wdef_single_chain_cut. Qed.
+
+(* the cut keeps the hypotheses of the refinement theorems ... *)
+Theorem C10_ws_cut_keeps_hypotheses :
+  forall ws c, (ws_ok ws -> ws_ok (cut_ws ws c)) /\ distinct_stems (cut_ws ws c) = distinct_stems ws /\
+               (forall d t, annotate d (cut_tree t) = annotate d t).
+Proof. intros ws c. split; [apply ws_ok_cut|]. split; [apply distinct_stems_cut|intros; apply annotate_cut]. Qed.
+
+(* ... so on a cycle the chain of the requested document refines Scoping.scope_chain of the abstract
+   workspace of cut_ws ws c, table by table (and with it the look-up and label theorems above),
+   whenever the cut workspace has no further cycle *)
+Theorem C10_ws_cycle_refines :
+  forall ws a d k mt path, ws_ok ws -> distinct_stems ws = true ->
+    nth_error ws a = Some d -> lineage_t ws a = Ans (true, path) ->
+    nth_error (method_tables_of false (snd d)) k = Some mt ->
+    exists c pre, path = pre ++ [c] /\ ws_ok (cut_ws ws c) /\ distinct_stems (cut_ws ws c) = true /\
+      (ws_acyclic (cut_ws ws c) ->
+       exists d' me, nth_error (cut_ws ws c) a = Some d' /\ fst d' = fst d /\
+         nth_error (e_methods (ent d')) k = Some me /\
+         Forall2 same_tableB (tree_chain ws a mt path) (abs_chain_ws (cut_ws ws c) d' me) /\
+         (find_method (ent d') (me_name me) = Some me ->
+          scope_chain (absws (cut_ws ws c)) (fst d) (Some (me_name me)) = abs_chain_ws (cut_ws ws c) d' me)).
+Proof. exact ws_cycle_refines. Qed.
+
+(* non-vacuity: aChild (aParent), aParent (aChild), request in aChild: aChild closes the cycle; after
+   the cut the workspace is acyclic, aParent's chain is [aParent; aChild] *)
+Example C10_ws_cycle_nonvacuous :
+  ws_ok wsx_cyc /\ lineage_t wsx_cyc 0 = Ans (true, [0]%nat) /\
+  ws_acyclic (cut_ws wsx_cyc 0) /\
+  lineage_t (cut_ws wsx_cyc 0) 0 = Ans (false, [0]%nat) /\
+  lineage_t (cut_ws wsx_cyc 0) 1 = Ans (false, [1; 0]%nat) /\
+  wdefinition wsx_cyc 0 (mkPos 5 9) = wdefinition (cut_ws wsx_cyc 0) 0 (mkPos 5 9) /\
+  wdefinition wsx_cyc 0 (mkPos 5 14) = wdefinition (cut_ws wsx_cyc 0) 0 (mkPos 5 14).
+Proof.
+  destruct wsx_cyc_cut_facts as (H1 & H2 & H3 & H4 & _ & H6 & H7). destruct wsx_cyc_facts as (H0 & _).
+  split; [apply ws_okb_ok; exact H0|]. split; [exact H1|]. split; [apply ws_acyclicb_ok; exact H2|]. repeat split; assumption.
+Qed.
+
+Print Assumptions C10_ws_cycle_chain.
+Print Assumptions C10_ws_cycle_plain_in_chain.
+Print Assumptions C10_ws_cut_keeps_hypotheses.
+Print Assumptions C10_ws_cycle_refines.
+Print Assumptions C10_ws_cycle_nonvacuous.
